@@ -12,11 +12,10 @@ KNOWN_CLASSES = {
 
 REQUIRED = [
     # generated tables
-    "phase_table_correct", "phase_table_entries_lt4", "conj_tables_as_expected",
+    "phase_table_correct", "conj_tables_as_expected",
     # general (all n)
-    "multiply_row_spec", "multiply_row_panics_iff_anticommute", "multiply_row_no_assert_of_stabilizes",
-    "pauli_mul_act", "row_ops_preserve_group", "normalize_sound",
-    "measure_deterministic_row_sound", "bits_get_set", "bits_sign_get_set",
+    "pauli_mul_act", "commute_dichotomy", "multiply_row_spec", "multiply_row_panics_iff_anticommute",
+    "multiply_row_no_assert_of_stabilizes", "row_ops_preserve_group",
     # finite, kernel-checked (n <= 2)
     "enum_card", "enum_is_closure", "exhaustive_gates_n2", "exhaustive_measure_n2", "exhaustive_reset_partial_n2",
     "exhaustive_canonical_n2", "equal_states_identical_tableau_n2", "history_independent_n2",
@@ -102,7 +101,7 @@ def nontrivial(req, ans):
 SPEC = {
     "tables": ["PhaseTable", "Conj"],
     "props_module": PROPS_MODULE,
-    "required": REQUIRED if not __import__("os").environ.get("C03_STUB") else ["phase_table_correct"],
+    "required": REQUIRED,
     "drivers": ["drv_c03"],
     "harness_bin": "c03",
     "eq": eq,
